@@ -5,7 +5,8 @@ and builder registrations ride along without influencing duty triggering.
 
 Property theorems only (helpers: `CharonV.Proofs.SchedRun`). Every theorem quantifies over an arbitrary
 beacon-node oracle, every configuration, the clock value at which `Run` is called and every finite sequence
-of events (`Reach`): answers of the chain-start / sync polls, returns of `clock.Sleep`, clock advances, runs of
+of events (`Reach`): answers of the chain-start / sync polls, returns of `clock.Sleep`, clock moves FORWARD AND
+BACKWARD (`adv`, `back`: no theorem here assumes a monotone clock), runs of
 the ticker goroutine, outcomes of `Run`'s `select`, returns of the slot handler, `Stop` at any point,
 timer / quit / beacon-node outcomes of every registration goroutine — i.e. every interleaving.
 
@@ -162,6 +163,7 @@ theorem stop_ignored_before_loop {c : Core} (hp : c.phase.pre = true) (e : Ev) :
     · simp
     · exact hc
   | adv d => exact hc
+  | back d => exact hc
   | stop => exact hc
   | regTimer i => exact hc
   | regQuit i => exact hc
@@ -310,6 +312,14 @@ receives slot 1 when the clock (since genesis) reads 4000 = in slot 3; slot 2 is
 theorem stale_slot_handed_over_late_witness :
     (exRun [.tick, .take false, .adv 1200, .tick, .adv 2800, .done, .take false, .done, .tick, .take false]).core.takenAt
       = [(0, 0), (1, 4000), (3, 4000)] := by
+  decide
+
+/-- **A clock that steps back does not make the ticker repeat a slot** (instance of `slots_handled_in_order_once`):
+slot 1 is on offer while slot 0 is still being handled; the clock steps back into slot 0; slot 1 is handed over;
+`slot.Next()` does not read the clock, so the ticker waits for slot 2 and emits nothing until the clock gets there. -/
+theorem clock_step_back_no_duplicate_witness :
+    (exRun [.tick, .take false, .adv 1200, .tick, .back 50, .done, .take false, .done, .tick, .adv 60, .tick,
+            .adv 1190, .tick, .take false]).core.takenAt = [(0, 0), (1, 1150), (2, 2400)] := by
   decide
 
 /-- **Witness: `Stop` before the loop has no effect.** -/
